@@ -5,9 +5,12 @@
    Part 2: the invariant [msem] (coverage of the sink = source coverage restricted to the
            covers; every fragment inside ONE cover segment) through eviction and gap filling.
    Part 3: one query, histories (with clock advances AND source mutations: re-tagging does not
-           move time), the observational theorems.
-   Part 4: the exact content of the sink as a multiset of spans.
-   Part 5: non-vacuity and the clauses that do NOT hold (results are not clipped to the window).
+           move time), the observational theorems; the same machine over ANY source faithful to
+           a covered-time function (a mask expression such as ~T), instance cached(~T).
+   Part 4: the exact content of the sink and of a result as multisets, payloads included: the
+           source clipped to each cached segment separately.
+   Part 5: the harness oracle as a theorem, non-vacuity, and the clauses that do NOT hold
+           (results are not clipped to the window; events are not returned whole).
    Nothing is assumed of the source events: overlapping, nested, duplicated, unbounded,
    empty and reversed (start >= end) events, any payloads. *)
 From CG Require Import Proofs.Defs Proofs.Stored Proofs.Compl Proofs.Diff Proofs.Merge Proofs.RefSpec Model.Cache Proofs.CacheInv Proofs.CacheInv2.
@@ -510,7 +513,7 @@ Print Assumptions C09_mask_all_outputs.
 (* ---------- a masked cache over ANY faithful source, through a whole history ---------- *)
 (* The histories of Model/Cache.v fetch from a stored event list.  A real mask source is an
    expression (~T, a union of masks, ...) that returns a different partition of the same covered
-   time for every window.  [gstep] is the same machine with the source as a parameter. *)
+   time for every window.  [gstep] is the same machine with the source as an argument. *)
 Definition gstep (ttl tick : Z) (src : Z -> Z -> list ivl) (s : cstate) (o : cop) : cstate :=
   match o with
   | CQuery a b rv => fst (fst (cquery true ttl tick src s a b rv))
@@ -1213,5 +1216,5 @@ Qed.
 
 (* the generic machine is the model's machine on the model's source *)
 Example mx_grun : grun 5 1 0 (src_of mx_evs 0) mx_ops2 = r_state (crun_all true 5 1 0 mx_evs mx_ops2).
-Proof. unfold grun, crun_all. apply (grun_crun mx_evs 5 1 mx_ops2 _ mx_ops2_static). reflexivity. Qed.
+Proof. exact (grun_crun mx_evs 5 1 mx_ops2 (mkR (cinit 0) 0%N [] [] [] []) mx_ops2_static eq_refl). Qed.
 Print Assumptions mc_c09.
